@@ -1,4 +1,124 @@
-(* placeholder while the proofs are being built *)
-From SV Require Import Compare.
-Theorem C03_placeholder : True. Proof. exact I. Qed.
-Print Assumptions C03_placeholder.
+(* PC03.v — property C03: comparison audits test the right null hypothesis (overstatement reduction).
+   Model: Compare.v (mirrors Assorter.overstatement, Assertion.overstatement_assorter, Assorter.mean,
+   Assertion.set_margin_from_cvrs, Assorter.set_tally_pool_means, CVR.pool_contests, CVR.add_pool_contests of
+   shangrla/core/Audit.py).  The assorter A : card -> Q is arbitrary.
+   pairs = one (manual record, CVR) pair per card of the population; the cards under audit (`scope`) are those whose
+   CVR passes the style filter; Abar = `abar` scores an unfindable (phantom) manual record 0 and, under style, a manual
+   record lacking the contest 0.  Hypotheses are decidable predicates of the input:
+     phantoms_half : A c = 1/2 for phantom CVRs that are not pooled (blank records, as make_phantoms builds them);
+     range_ok      : 0 <= A c <= u on the CVRs under audit. *)
+From SV Require Import Compare Compare_proofs.
+Open Scope Q_scope.
+
+(* For every list of pairs, every assignment of pools / pooled flags / phantoms, style on or off, pool means and
+   margin computed by the model from those same CVRs: every B is a finite number and
+   mean B - 1/2 == (2 mean Abar - 1) / (2 (2u - v)); hence mean B > 1/2 <-> mean Abar > 1/2. *)
+Theorem C03_identity :
+  forall (A : card -> Q) (cid : Z) (use_style : bool) (ua : Q),
+  0 < ua ->
+  forall (pairs : list (card * card)) (arg : option (list Z)) (means : list (Z * Xq)),
+  let cvrs := map snd pairs in
+  let scope := filter (in_scope cid use_style) pairs in
+  scope <> [] ->
+  phantoms_half A (map snd scope) = true ->
+  range_ok A ua (map snd scope) = true ->
+  set_tally_pool_means A cid cvrs arg use_style = Ok means ->
+  exists v bs,
+    margin_of_mean (assorter_mean A cid cvrs use_style) = Fin v /\ v < 2 * ua /\
+    map (fun p => overstatement_assorter A cid (Some means) (Fin v) ua (fst p) (snd p) use_style) scope
+      = map (fun b => Ok (Fin b)) bs /\
+    mean bs - (1 # 2) == (2 * mean (map (fun p => abar A cid use_style (fst p)) scope) - 1) / (2 * (2 * ua - v)) /\
+    ((1 # 2) < mean bs <-> (1 # 2) < mean (map (fun p => abar A cid use_style (fst p)) scope)).
+Proof. exact C03_identity_lemma. Qed.
+Print Assumptions C03_identity.
+
+Corollary C03_reject_iff :
+  forall (A : card -> Q) (cid : Z) (use_style : bool) (ua : Q),
+  0 < ua ->
+  forall (pairs : list (card * card)) (arg : option (list Z)) (means : list (Z * Xq)),
+  let cvrs := map snd pairs in
+  let scope := filter (in_scope cid use_style) pairs in
+  scope <> [] ->
+  phantoms_half A (map snd scope) = true ->
+  range_ok A ua (map snd scope) = true ->
+  set_tally_pool_means A cid cvrs arg use_style = Ok means ->
+  exists v bs,
+    margin_of_mean (assorter_mean A cid cvrs use_style) = Fin v /\
+    map (fun p => overstatement_assorter A cid (Some means) (Fin v) ua (fst p) (snd p) use_style) scope
+      = map (fun b => Ok (Fin b)) bs /\
+    ((1 # 2) < mean bs <-> (1 # 2) < mean (map (fun p => abar A cid use_style (fst p)) scope)).
+Proof. exact C03_reject_iff_lemma. Qed.
+Print Assumptions C03_reject_iff.
+
+(* Same when Assorter.tally_pool_means was never set (plain card comparison): every CVR is scored by itself, so
+   every phantom CVR must assort to 1/2. *)
+Theorem C03_identity_no_pool_means :
+  forall (A : card -> Q) (cid : Z) (use_style : bool) (ua : Q),
+  0 < ua ->
+  forall (pairs : list (card * card)),
+  let cvrs := map snd pairs in
+  let scope := filter (in_scope cid use_style) pairs in
+  scope <> [] ->
+  phantoms_half_all A (map snd scope) = true ->
+  range_ok A ua (map snd scope) = true ->
+  exists v bs,
+    margin_of_mean (assorter_mean A cid cvrs use_style) = Fin v /\ v < 2 * ua /\
+    map (fun p => overstatement_assorter A cid None (Fin v) ua (fst p) (snd p) use_style) scope
+      = map (fun b => Ok (Fin b)) bs /\
+    mean bs - (1 # 2) == (2 * mean (map (fun p => abar A cid use_style (fst p)) scope) - 1) / (2 * (2 * ua - v)) /\
+    ((1 # 2) < mean bs <-> (1 # 2) < mean (map (fun p => abar A cid use_style (fst p)) scope)).
+Proof. exact C03_identity_no_means_lemma. Qed.
+Print Assumptions C03_identity_no_pool_means.
+
+(* After add_pool_contests(cvrs, pool_contests(cvrs)) every pooled card lists every contest listed by any pooled card
+   of its tally pool; flags, pool, sample number and votes are untouched, existing contests keep their position,
+   unpooled cards are unchanged, and a contest is only ever added because a pooled card of the same pool lists it. *)
+Theorem C03_pool_contests :
+  forall (cvrs : list card),
+  let r := add_pool_contests cvrs (pool_contests cvrs) in
+  (forall c' d k, In c' (fst r) -> c_pool c' = true ->
+                  In d cvrs -> c_pool d = true -> c_tp d = c_tp c' -> has_contest k d = true ->
+                  has_contest k c' = true)
+  /\ Forall2 (fun c c' =>
+                same_but_contests c c' /\
+                exists extra, c_contests c' = c_contests c ++ extra /\
+                              (c_pool c = false -> extra = []) /\
+                              forall k, In k extra ->
+                                        ~ In k (c_contests c) /\
+                                        exists d, In d cvrs /\ c_pool d = true /\ c_tp d = c_tp c /\ has_contest k d = true)
+             cvrs (fst r).
+Proof. exact C03_pool_contests_lemma. Qed.
+Print Assumptions C03_pool_contests.
+
+(* ---- non-vacuity: a population with a pooled batch containing a phantom, an unpooled phantom that lists the
+        contest, a phantom that does not, manual records with discrepancies / missing contest / not found ---- *)
+Definition exA (c : card) : Q := match c_votes c with 0%Z => 0 | 1%Z => 1 # 2 | _ => 1 end.
+Definition ex_pairs : list (card * card) :=
+  (*  mvr                                     cvr  *)
+  [ (mkcard false false 0 [7%Z] 0 2,          mkcard false true  1 [7%Z] 1 2);       (* pooled, agrees *)
+    (mkcard false false 0 [7%Z] 0 0,          mkcard false true  1 [7%Z] 2 2);       (* pooled, 2-vote overstatement *)
+    (mkcard true  false 0 []    0 1,          mkcard true  true  1 [7%Z] 3 1);       (* pooled phantom, card not found *)
+    (mkcard false false 0 [8%Z] 0 1,          mkcard false false 0 [7%Z; 8%Z] 4 2);  (* MVR lacks the contest *)
+    (mkcard false false 0 [7%Z] 0 2,          mkcard true  false 0 [7%Z] 5 1);       (* unpooled phantom CVR, ballot found *)
+    (mkcard false false 0 [7%Z] 0 2,          mkcard true  false 0 [8%Z] 6 1);       (* phantom not listing the contest *)
+    (mkcard false false 0 [7%Z] 0 2,          mkcard false false 2 [7%Z] 7 0) ].     (* understatement *)
+Example C03_identity_nonvacuous :
+  let scope := filter (in_scope 7 true) ex_pairs in
+  length scope = 6%nat /\ scope <> [] /\
+  phantoms_half exA (map snd scope) = true /\ range_ok exA 1 (map snd scope) = true /\
+  exists means, set_tally_pool_means exA 7 (map snd ex_pairs) None true = Ok means /\
+                lookup 1%Z means = Some (Fin ((1 + (1 + ((1 # 2) + 0))) / 3)).
+Proof.
+  vm_compute. repeat split; try discriminate. eexists. split; reflexivity.
+Qed.
+Example C03_no_pool_means_nonvacuous :
+  let scope := filter (in_scope 7 false) ex_pairs in
+  length scope = 7%nat /\ phantoms_half_all exA (map snd scope) = true /\ range_ok exA 1 (map snd scope) = true.
+Proof. vm_compute. repeat split. Qed.
+Example C03_pool_contests_nonvacuous :
+  let cvrs := [mkcard false true 1 [7%Z] 0 0; mkcard false true 1 [8%Z; 9%Z] 0 0; mkcard false false 1 [5%Z] 0 0;
+               mkcard true true 2 [] 0 0; mkcard false true 2 [9%Z] 0 0] in
+  map c_contests (fst (add_pool_contests cvrs (pool_contests cvrs)))
+  = [[7%Z; 8%Z; 9%Z]; [8%Z; 9%Z; 7%Z]; [5%Z]; [9%Z]; [9%Z]]
+  /\ snd (add_pool_contests cvrs (pool_contests cvrs)) = true.
+Proof. vm_compute. split; reflexivity. Qed.
